@@ -232,6 +232,43 @@ def run(ctx):
                 graph.edges.append((a, b))
         check_one(ctx, g, "edited_add_component", cases, obs, reqs,
                   edit=({"added_nodes": extra_nodes, "added_edges": extra_edges}, add_component))
+    # graphs rewired *in place* between two inferences (same edge-list object, same length), and graphs that come
+    # from from_list (whose automatic Output shares its type dictionary with the last node) and are then extended
+    from core import quiet
+    for i in range(ctx.n(40)):
+        sh = gen.shape(rng, rank=rng.randrange(1, 3), hi=5)
+        mk = lambda: impl_construct(gen.node_recipe(rng, rng.choice(["Scale", "Threshold", "LIF"]), sh=list(sh), dtype="<f8", meta_p=0))
+        case = {"op": "rewire_in_place", "shape": sh, "variant": i % 2}
+        ctx.case(case); ctx.count("rewired")
+        try:
+            if i % 2 == 0:
+                g = nir.NIRGraph(nodes={"in": nir.Input(np.array(sh)), "a": mk(), "b": mk(), "c": mk(), "out": nir.Output(None)},
+                                 edges=[("in", "a"), ("a", "b"), ("b", "out")])
+                bounded_infer(g)
+                g.nodes["c"].input_type = {"input": None}        # c has not been looked at yet
+                g.edges[1] = ("a", "c"); g.edges[2] = ("c", "out")
+                must_reach, must_not = ["a", "c", "out"], "b"
+            else:
+                other = [x + 1 for x in sh]
+                g = nir.NIRGraph.from_list(nir.Affine(weight=np.ones((4, sh[-1])), bias=np.ones(4)))
+                g.nodes["wide"] = nir.Affine(weight=np.ones((5, sh[-1])), bias=np.ones(5))
+                g.edges[:] = [("input", "wide"), ("wide", "output")]
+                must_reach, must_not = ["wide", "output"], "affine"
+            before = types_snapshot(g)[must_not]
+            err = bounded_infer(g)
+        except Hang:
+            ctx.violate(case, "infer_types did not terminate", {"site": "infer_types", "what": "hang"}); continue
+        except Exception as e:  # noqa
+            ctx.count("rewire_setup_failed"); continue
+        after = types_snapshot(g)
+        undefined = [k for k in must_reach if after[k][0] in (None, {"d": [["input", None]]}) or after[k][1] in (None, {"d": [["output", None]]})]
+        if err is None and undefined:
+            ctx.violate(case, "a node reachable from an Input was left without a type after the graph was rewired in place",
+                        {"site": "infer_types", "what": "reach-undefined", "edit": "rewire"}, observed=undefined)
+        elif after[must_not] != before:
+            ctx.violate(case, "infer_types touched a node that is not reachable from an Input (after rewiring)",
+                        {"site": "infer_types", "what": "unreachable-touched", "edit": "rewire"},
+                        observed={"node": must_not, "before": before, "after": after[must_not]})
     # depth: a single path far longer than any recursion limit
     for depth in ([1500] if ctx.tier == "quick" else [1500, 4000]):
         chain = [["in", {"type": "Input", "kwargs": [["input_type", {"l": [gen.pyint(4)]}]]}]]
